@@ -114,6 +114,15 @@ type site struct {
 	skipPre map[int]bool
 	// stale sites also run the two stale-cache pre-states.
 	stale bool
+	// noMidAdoption: the site's write is not conditional on the version it
+	// checked (a Delete following an Update, or a merge patch without a
+	// resourceVersion), so a third party adopting the target between the
+	// site's check and its write is not noticed in the pinned tree. That is
+	// an interleaving with a concurrent writer, which the property does not
+	// quantify over; such sites skip the mid-reconcile adoption dimension
+	// (DESIGN.md 7.5). All other sites write with optimistic concurrency and
+	// must keep refusing the write.
+	noMidAdoption bool
 }
 
 type world struct {
@@ -171,7 +180,7 @@ func composedObj(gvkName, name, resName string) *unstructured.Unstructured {
 }
 
 func xrSite(name string, pipeline bool, mode string) site {
-	return site{name: name, stale: true, silent: pipeline && mode != "name-collision", generatedName: mode != "name-collision", build: func(w *world, pre int) (simkube.ObjKey, func() []error, func() bool) {
+	return site{name: name, stale: true, noMidAdoption: mode == "gc", silent: pipeline && mode != "name-collision", generatedName: mode != "name-collision", build: func(w *world, pre int) (simkube.ObjKey, func() []error, func() bool) {
 		s := w.s
 		xr := xrh.XR("xr1", "comp")
 		xr.SetUID("xr-uid")
@@ -247,7 +256,7 @@ func xrSite(name string, pipeline bool, mode string) site {
 // ---- secrets --------------------------------------------------------------------
 
 func xrSecretSite() site {
-	return site{name: "xr-connection-secret", skipPre: map[int]bool{preUncontrolled: true}, build: func(w *world, pre int) (simkube.ObjKey, func() []error, func() bool) {
+	return site{name: "xr-connection-secret", noMidAdoption: true, skipPre: map[int]bool{preUncontrolled: true}, build: func(w *world, pre int) (simkube.ObjKey, func() []error, func() bool) {
 		s := w.s
 		xr := xrh.XR("xr1", "comp")
 		xr.SetUID("xr-uid")
@@ -340,7 +349,7 @@ func (offeredEngine) IsRunning(string) bool { return false }
 // ---- packages -------------------------------------------------------------------
 
 func pkgRevisionSite() site {
-	return site{name: "package-revision", skipPre: map[int]bool{preUncontrolled: true}, build: func(w *world, pre int) (simkube.ObjKey, func() []error, func() bool) {
+	return site{name: "package-revision", noMidAdoption: true, skipPre: map[int]bool{preUncontrolled: true}, build: func(w *world, pre int) (simkube.ObjKey, func() []error, func() bool) {
 		s := w.s
 		p := &pkgv1.Provider{TypeMeta: metav1.TypeMeta{APIVersion: pkgv1.SchemeGroupVersion.String(), Kind: pkgv1.ProviderKind}, ObjectMeta: metav1.ObjectMeta{Name: "p", UID: "pkg-uid"}, Spec: pkgv1.ProviderSpec{PackageSpec: pkgv1.PackageSpec{Package: "acme/p:v1"}}}
 		s.Seed(p)
@@ -485,6 +494,29 @@ func body(r *explore.Run, rep *report.R, st site) {
 	target, round, unsynced := st.build(w, pre)
 	before := w.s.Peek(target)
 	logStart := len(w.s.Log)
+	// A foreign controller may adopt the target in the middle of a reconcile:
+	// just before the k-th API call (reads and dry runs included) that
+	// addresses it. From then on it is a foreign-controlled object.
+	adoptAt, adopted := 0, false
+	if (pre == preUncontrolled || pre == preOwned) && !st.noMidAdoption {
+		adoptAt = r.Free(7, "foreign-adoption-before-call")
+	}
+	if adoptAt > 0 {
+		n := 0
+		w.s.Inj = simkube.InjectorFn(func(c simkube.Call) simkube.Outcome {
+			if c.Key == target && !adopted {
+				n++
+				if n == adoptAt && w.s.Peek(target) != nil {
+					w.s.Mutate(target, func(u *unstructured.Unstructured) { u.SetOwnerReferences([]metav1.OwnerReference{foreign}) })
+					adopted = true
+					before = w.s.Peek(target)
+					logStart = len(w.s.Log)
+					r.Logf("  foreign controller adopts %s before %s", target, c)
+				}
+			}
+			return simkube.OK
+		})
+	}
 	var errs []string
 	requeued := false
 	stale := pre >= preStaleOwned
@@ -532,6 +564,13 @@ func body(r *explore.Run, rep *report.R, st site) {
 	switch {
 	case pre == preForeign:
 		check("", true)
+	case adopted:
+		// The write that was in flight when the object was adopted must not
+		// land; later rounds see the plain foreign placement.
+		kind := preNames[pre]
+		check("/adopted-mid-reconcile-was-"+kind, false)
+		run(2)
+		check("/after-adoption-mid-reconcile-was-"+kind, true)
 	case stale:
 		// While the cache is behind, the target must stay untouched; a write
 		// refused with a conflict may be answered by an immediate requeue
@@ -557,15 +596,15 @@ func body(r *explore.Run, rep *report.R, st site) {
 	// Vacuity guard: when the target is absent or already ours the site does
 	// write / keep it (so the foreign case above is not passing because the
 	// site never runs).
-	if (pre == preOwned || (pre == preAbsent && !st.generatedName)) && !strings.Contains(st.name, "garbage-collection") {
+	if !adopted && (pre == preOwned || (pre == preAbsent && !st.generatedName)) && !strings.Contains(st.name, "garbage-collection") {
 		if after == nil {
 			r.Failf("harness/site-not-exercised/"+st.name, "with the target %s the %s site did not create / keep %s (errs %v, warnings %v)", preNames[pre], st.name, target, errs, w.warnings)
 		}
 	}
-	if strings.Contains(st.name, "garbage-collection") && (pre == preOwned || pre == preUncontrolled) && after != nil && after.GetDeletionTimestamp() == nil {
+	if !adopted && strings.Contains(st.name, "garbage-collection") && (pre == preOwned || pre == preUncontrolled) && after != nil && after.GetDeletionTimestamp() == nil {
 		r.Failf("harness/site-not-exercised/"+st.name, "the %s site did not garbage collect its own / an uncontrolled object (errs %v)", st.name, errs)
 	}
-	rep.Eval(st.name, report.Hash(st.name, pre, after != nil, len(errs) > 0, len(w.warnings) > 0), report.Hash(st.name, pre, rounds))
+	rep.Eval(st.name, report.Hash(st.name, pre, after != nil, len(errs) > 0, len(w.warnings) > 0), report.Hash(st.name, pre, rounds, adoptAt))
 	if rep.WantSample() && (pre == preForeign || pre >= preStaleOwned) {
 		rep.Sample(map[string]any{"site": st.name, "pre_state": preNames[pre], "rounds": rounds, "errors": errs, "warnings": w.warnings, "writes_on_target": writes})
 	}
